@@ -19,23 +19,28 @@ class DjangoReceiverOnTopTransformer(LibcstResultTransformer, NameResolutionMixi
     ) -> Union[
         cst.BaseStatement, cst.FlattenSentinel[cst.BaseStatement], cst.RemovalSentinel
     ]:
-        maybe_receiver_with_index = None
-        for i, decorator in enumerate(original_node.decorators):
-            if self.find_base_name(decorator.decorator) == "django.dispatch.receiver":
-                maybe_receiver_with_index = (i, decorator)
+        receivers = [
+            decorator
+            for decorator in original_node.decorators
+            if self.find_base_name(decorator.decorator) == "django.dispatch.receiver"
+        ]
+        # A receiver is misplaced when any other decorator comes before it
+        leading_receivers = 0
+        for decorator in original_node.decorators:
+            if decorator not in receivers:
+                break
+            leading_receivers += 1
+        misplaced = receivers[leading_receivers:]
 
-        if maybe_receiver_with_index and self.node_is_selected(
-            maybe_receiver_with_index[1]
-        ):
-            index, receiver = maybe_receiver_with_index
-            if index > 0:
-                new_decorators = [receiver]
-                new_decorators.extend(
-                    d for d in original_node.decorators if d != receiver
-                )
-                for decorator in new_decorators:
-                    self.report_change(decorator)
-                return updated_node.with_changes(decorators=new_decorators)
+        if misplaced and any(self.node_is_selected(receiver) for receiver in misplaced):
+            # All the receivers go to the top, in the order they had
+            new_decorators = list(receivers)
+            new_decorators.extend(
+                d for d in original_node.decorators if d not in receivers
+            )
+            for decorator in new_decorators:
+                self.report_change(decorator)
+            return updated_node.with_changes(decorators=new_decorators)
         return updated_node
 
 
